@@ -250,7 +250,7 @@ func c19Matchers() []matcherSpec {
 }
 
 // hostile characters appended to every matcher's alphabet
-var c19Hostile = []string{"<", ">", "\"", "'", "=", "`", "&", ";", "/", "\\", "(", ")", "\x00", "\t", "\n", "\x7f", "\x0b", " ", " ", "\xff", "é", ":", "%", "#", "{", "*", "?", "|", "^", "$"}
+var c19Hostile = []string{"\u00a0", "\u2028", "\u0085", "\u200b", "\u3000", "\u0661", "\u2167", "\u01c5", "\uff11", "\u00bd", "<", ">", "\"", "'", "=", "`", "&", ";", "/", "\\", "(", ")", "\x00", "\t", "\n", "\x7f", "\x0b", " ", " ", "\xff", "é", ":", "%", "#", "{", "*", "?", "|", "^", "$"}
 
 var c19Probes = []string{"é", " ", "K", "ſ", " ", "\xff", "\xc0\xaf", "١"}
 
